@@ -79,3 +79,118 @@ def greenhouse_area(total_area_ha, share, delay, nmonths, add):
         else:
             out[m] = limit
     return out
+
+
+# ---------------------------------------------------------------------------------------------------------------
+# the other supply series (C08)
+
+FISH_YEARLY_REDUCTION = [0, -11, -32, -35, -34, -32.5, -32, -30, -29, -27, -22, -15, -8, 0, 0, 0]   # Xia et al. 2022, fig. 2b (percent)
+MONTH_NAMES = ["JAN", "FEB", "MAR", "APR", "MAY", "JUN", "JUL", "AUG", "SEP", "OCT", "NOV", "DEC"]
+SCP_RAMP = [0] * 12 + [2] * 5 + [4] + [7] * 5 + [9] + [11] * 6 + [13]        # percent of global needs, then 15 for good
+CS_RAMP = [0.0] * 5 + [4.7] * 3                                              # then 9.5 for good
+INDUSTRIAL_DOWNTIME = 0.12
+
+
+def fish_percent(option, nmonths):
+    if option == "zero":
+        return np.zeros(nmonths)
+    if option == "baseline":
+        return np.full(nmonths, 100.0)
+    out = np.zeros(nmonths)
+    y = FISH_YEARLY_REDUCTION
+    for m in range(nmonths):
+        i, frac = m // 12, (m % 12) / 12.0
+        out[m] = 100.0 + (y[i] + (y[i + 1] - y[i]) * frac if i + 1 < len(y) else y[-1])
+    return out
+
+
+def fish_series(annual_dry_tons, dist_waste_pct, retail_waste_pct, percent_series, add_fish=True):
+    if not add_fish:
+        return np.zeros(len(percent_series))
+    monthly = annual_dry_tons * KCALS_PER_DRY_TON / 1e9 / 12.0 * (1 - dist_waste_pct / 100.0) * (1 - retail_waste_pct / 100.0)
+    return np.asarray(percent_series, float) / 100.0 * monthly
+
+
+def grass_year(m, nmonths):
+    """model year of simulated month m for grazing: 8 months, then 12-month years, the last simulated year is extended"""
+    n_years = nmonths // 12
+    if m < 8:
+        return 1
+    return min(n_years, 2 + (m - 8) // 12)
+
+
+def grass_series(baseline_monthly, ratios_by_year, nmonths):
+    """billion kcals of human-inedible feed per month (million dry caloric tons x 4000)"""
+    return np.array([baseline_monthly * ratios_by_year[grass_year(m, nmonths) - 1] * 1e6 * KCALS_PER_DRY_TON / 1e9 for m in range(nmonths)])
+
+
+def demand_series(annual_dry_tons, months, nmonths):
+    out = np.zeros(nmonths)
+    out[: min(nmonths, months)] = annual_dry_tons / 12.0 * KCALS_PER_DRY_TON / 1e9
+    return out
+
+
+def industrial_series(ramp, plateau, delay, slope_multiplier, global_pop, kcals_daily, share_of_global, dist_waste_pct, nmonths, add=True):
+    """billion kcals per month of an industrial food: nothing for `delay` months, then the published ramp (percent of global needs,
+    corrected for 12 % downtime), times this country's share of global capacity, less distribution waste"""
+    if not add:
+        return np.zeros(nmonths)
+    pct = [0.0] * delay + list(ramp) + [plateau] * (nmonths + 1)
+    need = global_pop * kcals_daily * 30.0 / 1e9
+    return np.array([pct[m] / (1 - INDUSTRIAL_DOWNTIME) * slope_multiplier / 100.0 * need * share_of_global * (1 - dist_waste_pct / 100.0)
+                     for m in range(nmonths)])
+
+
+def seaweed_built_area(new_area_fraction, max_area_fraction, delay, nmonths, add=True):
+    initial = 0.1 * new_area_fraction
+    per_month = 2.0765 * 30 * new_area_fraction
+    cap = 1853.0 * max_area_fraction
+    out = np.zeros(nmonths)
+    for m in range(nmonths):
+        if not add or m < delay:
+            a = initial
+        else:
+            a = initial + (m - delay) * per_month
+        out[m] = min(a, cap)
+    return out
+
+
+def seaweed_growth(per_day_by_key, nmonths):
+    keys = sorted(per_day_by_key, key=lambda k: int(k))
+    return np.array([100.0 * (1 + per_day_by_key[k] / 100.0) ** 30 for k in keys][:nmonths])
+
+
+def initial_stored_food(end_of_month_stocks, start_month, percent_to_use, ratio_untouched, dist_waste_pct):
+    """billion kcals available at the start: stock at the end of the month before the start month x share used
+    - untouched share of the lowest monthly stock of the year; less distribution waste"""
+    stocks = [end_of_month_stocks[k] for k in MONTH_NAMES]
+    before = stocks[(start_month - 2) % 12]
+    tons = before * percent_to_use / 100.0 - min(stocks) * ratio_untouched
+    return tons * KCALS_PER_DRY_TON / 1e9 * (1 - dist_waste_pct / 100.0)
+
+
+def crop_year_ratios(ratios_by_year, seasonality, iso3, nmonths):
+    y1 = year1_ratio(ratios_by_year[0], seasonality, iso3)
+    out = np.zeros(nmonths)
+    for m in range(nmonths):
+        yr = model_year(m)
+        r = y1 if yr == 1 else ratios_by_year[yr - 1]
+        out[m] = round(r, 8) if r <= 0 else r
+    return out
+
+
+def greenhouse_output(annual_tons, seasonality, ratios_by_year, iso3, nmonths, relocated, exponent, total_area_ha, share, delay, gain_pct,
+                      dist_waste_pct, retail_waste_pct, add=True):
+    """billion kcals per month from greenhouses = area x yield per hectare; the yield per hectare is the average monthly outdoor
+    yield per hectare x the year's disruption ratio (softened by relocation) x (1 + greenhouse gain), after both wastes"""
+    area = greenhouse_area(total_area_ha, share, delay, nmonths, add)
+    if not add or total_area_ha == 0:
+        return np.zeros(nmonths), area
+    annual = annual_tons * (1.0 - SEED_FRACTION)
+    mean_monthly = np.mean([annual * s * KCALS_PER_DRY_TON / 1e9 for s in seasonality])
+    per_ha = mean_monthly / total_area_ha
+    ratios = crop_year_ratios(ratios_by_year, seasonality, iso3, nmonths)
+    e = exponent if relocated else 1.0
+    y = np.array([per_ha * (r if r > 1 else r ** e) for r in ratios])
+    y = y * (1 - dist_waste_pct / 100.0) * (1 - retail_waste_pct / 100.0) * (1 + gain_pct / 100.0)
+    return y * area, area
